@@ -7,7 +7,7 @@
     non-empty, escapes are literals).  Part 2 ties the search of the index
     ([find_in]) to the specification.  Part 3 is the repository level. *)
 From HV Require Import Base.Prelude Radix.Spec Radix.SpecProofs Radix.Machine Radix.MachineProofs
-  Radix.Load Radix.LoadProofs Radix.Tree Radix.TreeProofs C02.Model.
+  Radix.Load Radix.LoadProofs Radix.Tree Radix.TreeProofs Radix.TreeAddProofs C02.Model.
 From Coq Require Import Permutation Sorted.
 
 (** * Part 1 — what [spec_lookup] says *)
@@ -324,6 +324,14 @@ Proof.
   intros Hm H Hg. rewrite (tree_as_is_refines V m Hm false t path H). cbn [negb].
   rewrite (find_faithful_eq V m Hm (abs t) path Hg).
   rewrite find_is_spec; [reflexivity | apply abs_NoDup; assumption | apply abs_nonempty].
+Qed.
+
+(** the tree built by ANY sequence of Adds (addNode / splitCommonPrefix / Add of tree.go,
+    transcribed), searched by findNode as it is: the specification on the machine's index *)
+Theorem tree_loaded_find_is_spec (can_add : list V -> V -> bool) (m : matcher) (l : list (addop V)) path :
+  tree_find true true true m (tree_load V can_add l) path = spec_lookup (load can_add l) path m.
+Proof.
+  rewrite (tree_load_find V can_add m true l path). cbn [negb]. apply repaired_find_is_spec. apply load_wf.
 Qed.
 
 End TreeSearch.
